@@ -467,3 +467,13 @@ Fixpoint iter_from_v0 (s : mgr) (fuel : nat) (pos : Z) : cres (list item) :=
       else CPanic
   end.
 Definition iter_v0 (s : mgr) : cres (list item) := iter_from_v0 s (S (Z.to_nat (nm s))) 0.
+
+(* the "flood" case of the harness: fill the manager, then any number of further allocations - each
+   returns an error and changes nothing (Proofs/CountersProofs.v allocate_err_unchanged), so their
+   number does not matter - then one more; observation as harness/c15 case_flood prints it *)
+Definition flood_obs (nm nv : Z) : Z * Z * cres Z * cres (list Z) * cres Z :=
+  let n := Z.min nm nv in
+  let fill := map (fun i => Alloc 0 KNone (mk_label 2 i (-1))) (zrange 0 (Z.to_nat n)) in
+  let s := final Debug fill (mgr0 nm nv 10) in
+  let '(r, s1) := allocate_opt 0 KNone [108; 97; 115; 116] s in
+  (n, 0, r, for_each_ids s1, l <~ counter_label s1 0 ;; COk (hash l)).
